@@ -360,10 +360,13 @@ def c15_timeout_script(rng, name, pts, silence_at, total, ka="-", shared_adv=Non
     return Script(name, ops, {"suite": "node", "noshrink": any(o.startswith("nexpect") for o in ops)})
 
 
-def translated_script(rng, name):
+def translated_script(rng, name, self_dial_first=False):
     """node 1 reaches node 2 through an address translation: node 2 sees it as p61. Node 2 then lists node 1 under [p61, p1];
-    node 1 must adopt p61 as its own address and must not dial it."""
+    node 1 must adopt p61 as its own address and must not dial it.  `self_dial_first`: node 1 has dialled its own public address p61 before (the user
+    listed it as a peer) and that attempt is still pending, unanswered: the address is adopted all the same"""
     ops = mesh(rng, 2, ka="1")
+    if self_dial_first:
+        ops += ["nconnect 1 p61", "ndrop 0"]
     def fwd(to, src):
         return ["ndrop 0", "nreplay-last %d %s" % (to, src)]
     ops += ["nconnect 1 p2"] + fwd(2, "p61")      # ping arrives from p61
@@ -376,7 +379,7 @@ def translated_script(rng, name):
         ops += ["ntime %d" % t, "nhk 2"]
         ops += fwd(1, "p2")                        # node 2's announcement (lists node 1 under p61, p1)
         ops += ["nhk 1"] + fwd(2, "p61")
-    ops += ["nexpect own 1 p61", "nexpect notpending 1 p61"]
+    ops += ["nexpect own 1 p61"] + ([] if self_dial_first else ["nexpect notpending 1 p61"])
     return Script(name, ops, {"suite": "node", "noshrink": True})
 
 
